@@ -610,11 +610,11 @@ CHECKS = {
 TV = 'TLC trace validation: every API call of the real controllers (built from /repo, run under a deterministic scheduler against an in-memory API server) is one event; spec/TraceObs.tla rebuilds the store and per-pass observations and its invariants are evaluated on every state'
 TECHNIQUES = {
     'C07': 'TLA+ model-based: exhaustive TLC check of the revision-layer design model spec/PKODeploy.tla (ObjectDeployment controller per API call, with and without cache lag; design-level reproduction of the known finding as negative control); ' + TV,
-    'C08': 'TLA+ model-based: exhaustive TLC check of the revision-layer design model spec/PKODeploy.tla (archive / prune decisions per API call); ' + TV,
-    'C10': 'TLA+ model-based fault enumeration: a staged scenario is run once undisturbed and once per API-call index x disturbance kind on the real controllers; TLC (spec/TraceObs.tla) tracks the store from the events and compares its end state with the reference digest; plus TLC liveness checking of the design model spec/PKO.tla under fairness (FixedSpec: repaired, quiescent, teardown completes)',
+    'C08': 'TLA+ model-based: exhaustive TLC check of the revision-layer design model spec/PKODeploy.tla (archive / prune decisions per API call) and of the two-controller teardown/adoption race model spec/PKOTeardownRace.tla (negative controls); ' + TV,
+    'C10': 'TLA+ model-based fault enumeration: a staged scenario is run once undisturbed and once per API-call index x disturbance kind on the real controllers; TLC (spec/TraceObs.tla) tracks the store from the events and compares its end state with the reference digest; plus TLC liveness checking of the design model spec/PKO.tla under fairness (FixedSpec: repaired, quiescent, teardown completes) and under its work queue (spec/PKOTriggered.tla: a pass starts only for an enqueued set; lost-retry negative control)',
     'C11': 'TLA+ model-based: preflight decision table (classes x owner kinds x rollout/teardown) run through the real controllers; ' + TV + ' with the row classes as independent oracle',
     'C12': 'TLA+ model-based: exhaustive TLC check of the reference model spec/DynCache.tla (intended + as-found variants as negative controls); enumerated and random operation sequences and concurrent stress on the real dynamiccache.Cache validated by TLC against the model (spec/TraceDynCache.tla: state and result equality after every call); the real InformerMap against a list/watch server (spec/TraceDynCacheReal.tla: one open stream per owned kind, events reach every handler)',
-    'C13': 'TLA+ model-based: rendering specified as a pure function (spec/Render.tla); abstract packages concretised and rendered repeatedly by the real pipeline; TLC (spec/TraceRender.tla) compares every outcome with Expected(p)',
+    'C13': 'TLA+ model-based: rendering specified as a pure function (spec/Render.tla); abstract packages concretised and rendered repeatedly by the real pipeline; TLC (spec/TraceRender.tla) compares every outcome with Expected(p); the environment as render input and the chunker beyond the slice limit through the real Package controller, traces validated by TLC (spec/TraceObs.tla), with the design model spec/PKOPackage.tla (shared environment sink, negative control) checked exhaustively',
     'C14': 'TLA+ model-based: exhaustive TLC check of spec/PKODeploy.tla (deployer with slices and slice GC; design-level reproduction of the known GC race as negative control); differential sliced-vs-inline runs and package update histories on the real controllers; ' + TV,
     'C15': 'TLA+ model-based: exhaustive TLC check (safety + liveness) of the delegated-phase protocol model spec/PKOPhase.tla (decision function spec/RemotePhase.tla); differential delegated-vs-local runs and seeded schedules of the real ObjectSet / ObjectSetPhase controllers; ' + TV + ' (C01-C06, C09 invariants on delegated scenarios)',
     'C16': 'TLA+ model-based: exhaustive TLC check of the Package controller model spec/PKOPackage.tla (unpack / deploy / record per API call; the known finding as negative control, the atomic variant incl. liveness); seeded histories of Package edits, faults and conflicts on the real Package controller + deployer; ' + TV + ' (reference render = the same pipeline called directly)',
